@@ -3,6 +3,7 @@ package c16
 import (
 	"fmt"
 	"regexp"
+	"sort"
 	"strings"
 
 	"verifharness/c17"
@@ -56,6 +57,35 @@ var shapeCatalogue = [][2]string{
 	{"ref-field-to-type", "APPLICATION app1();\nWORKSPACE W (\n  TYPE y (a int32);\n  TABLE t INHERITS sys.CDoc (r ref(y));\n);\n"},
 	{"record-field-of-doc", "APPLICATION app1();\nWORKSPACE W (\n  TABLE d INHERITS sys.CDoc (a int32);\n  TABLE t INHERITS sys.CDoc (x d);\n);\n"},
 	{"record-field-of-itself", "APPLICATION app1();\nWORKSPACE W (\n  TABLE t INHERITS sys.CRecord (x t);\n);\n"},
+	// command parameters / results of a kind the definition builder refuses (C16-F12)
+	{"command-param-cdoc", "APPLICATION app1();\nWORKSPACE W (\n  TABLE t INHERITS sys.CDoc (a int32);\n  EXTENSION ENGINE BUILTIN ( COMMAND c(t); );\n);\n"},
+	{"command-unlogged-param-cdoc", "APPLICATION app1();\nWORKSPACE W (\n  TABLE t INHERITS sys.CDoc (a int32);\n  EXTENSION ENGINE BUILTIN ( COMMAND c(UNLOGGED t); );\n);\n"},
+	{"command-result-crecord", "APPLICATION app1();\nWORKSPACE W (\n  TABLE t INHERITS sys.CRecord (a int32);\n  EXTENSION ENGINE BUILTIN ( COMMAND c() RETURNS t; );\n);\n"},
+	{"command-param-nested-table", "APPLICATION app1();\nWORKSPACE W (\n  TABLE t INHERITS sys.ODoc (a int32, items TABLE n (x int32));\n  EXTENSION ENGINE BUILTIN ( COMMAND c(n); );\n);\n"},
+	{"ok-command-param-odoc-result-wdoc", "APPLICATION app1();\nWORKSPACE W (\n  TABLE t INHERITS sys.ODoc (a int32);\n  TABLE w INHERITS sys.WDoc (a int32);\n  EXTENSION ENGINE BUILTIN ( COMMAND c(t, UNLOGGED t) RETURNS w; );\n);\n"},
+	// a job with seconds in its schedule (C16-F13)
+	{"job-cron-6-fields", "APPLICATION app1();\nALTER WORKSPACE sys.AppWorkspaceWS (\n  EXTENSION ENGINE BUILTIN ( JOB Job1 '0 1 0 * * *'; );\n);\n"},
+	{"ok-job-cron-5-fields", "APPLICATION app1();\nALTER WORKSPACE sys.AppWorkspaceWS (\n  EXTENSION ENGINE BUILTIN ( JOB Job1 '1 0 * * *'; );\n);\n"},
+	{"job-cron-descriptor", "APPLICATION app1();\nALTER WORKSPACE sys.AppWorkspaceWS (\n  EXTENSION ENGINE BUILTIN ( JOB Job1 '@every 1h'; );\n);\n"},
+	// a limit over a tag nothing carries (C16-F14)
+	{"limit-all-queries-with-tag-none", "APPLICATION app1();\nWORKSPACE W (\n  TAG tg;\n  RATE r 1 PER HOUR;\n  LIMIT l ON ALL QUERIES WITH TAG tg WITH RATE r;\n);\n"},
+	{"limit-each-table-with-tag-none", "APPLICATION app1();\nWORKSPACE W (\n  TAG tg;\n  RATE r 1 PER HOUR;\n  TABLE t INHERITS sys.CDoc (a int32);\n  LIMIT l ON EACH TABLE WITH TAG tg WITH RATE r;\n);\n"},
+	// names declared inside ALTER WORKSPACE w2 used from another workspace of the package (C16-F15)
+	{"alter-leak-projector-trigger", "APPLICATION app1();\nALTERABLE WORKSPACE W2 ();\nALTER WORKSPACE W2 ( TABLE t INHERITS sys.CDoc (a int32); );\nWORKSPACE W1 (\n  EXTENSION ENGINE BUILTIN ( PROJECTOR p AFTER INSERT ON t; );\n);\n"},
+	{"alter-leak-container", "APPLICATION app1();\nALTERABLE WORKSPACE W2 ();\nALTER WORKSPACE W2 ( TABLE t INHERITS sys.CRecord (a int32); );\nWORKSPACE W1 (\n  TABLE d INHERITS sys.CDoc (x t);\n);\n"},
+	{"alter-leak-type-container", "APPLICATION app1();\nALTERABLE WORKSPACE W2 ();\nALTER WORKSPACE W2 ( TYPE b (a int32); );\nWORKSPACE W1 (\n  TYPE a (x b);\n);\n"},
+	{"alter-leak-limit", "APPLICATION app1();\nALTERABLE WORKSPACE W2 ();\nALTER WORKSPACE W2 ( TABLE t INHERITS sys.CDoc (a int32); );\nWORKSPACE W1 (\n  RATE r 1 PER HOUR;\n  LIMIT l ON TABLE t WITH RATE r;\n);\n"},
+	{"alter-leak-command-trigger", "APPLICATION app1();\nALTERABLE WORKSPACE W2 ();\nALTER WORKSPACE W2 ( EXTENSION ENGINE BUILTIN ( COMMAND c(); ); );\nWORKSPACE W1 (\n  EXTENSION ENGINE BUILTIN ( PROJECTOR p AFTER EXECUTE ON c; );\n);\n"},
+	{"ok-alter-own-names", "APPLICATION app1();\nALTERABLE WORKSPACE W2 ();\nALTER WORKSPACE W2 ( TABLE t INHERITS sys.CDoc (a int32); EXTENSION ENGINE BUILTIN ( PROJECTOR p AFTER INSERT ON t; ); );\n"},
+	// refusals of the definition builder that come back without a position (C16-F19)
+	{"varchar-zero", "APPLICATION app1();\nWORKSPACE W (\n  TABLE t INHERITS sys.CDoc (a varchar(0));\n);\n"},
+	{"bytes-zero", "APPLICATION app1();\nWORKSPACE W (\n  TABLE t INHERITS sys.CDoc (a bytes(0));\n);\n"},
+	{"view-key-field-twice", "APPLICATION app1();\nWORKSPACE W (\n  TABLE t INHERITS sys.CDoc (x int32);\n  EXTENSION ENGINE BUILTIN ( PROJECTOR p AFTER INSERT ON t INTENTS(sys.View(v)); );\n  VIEW v (a int32, b int32, PRIMARY KEY ((a), a)) AS RESULT OF p;\n);\n"},
+	{"grant-on-nested-table-name", "APPLICATION app1();\nWORKSPACE W (\n  ROLE r;\n  TABLE t INHERITS sys.CDoc (a int32, items TABLE n (x int32));\n  GRANT SELECT(items) ON TABLE t TO r;\n);\n"},
+	{"table-includes-type-with-type-field", "APPLICATION app1();\nWORKSPACE W (\n  TYPE Inner (a int32);\n  TYPE Outer (x Inner);\n  TABLE t INHERITS sys.CDoc (Outer);\n);\n"},
+	// one TYPE included by two tables that refer to each other through it: no cycle (C16-F5b)
+	{"ok-field-set-shared-by-referenced-tables", "APPLICATION app1();\nWORKSPACE W (\n  TYPE T (x ref(B));\n  TYPE T2 (y ref(C));\n  TABLE B INHERITS sys.CDoc (T2);\n  TABLE C INHERITS sys.CDoc (T2);\n);\n"},
+	{"ok-field-set-shared-by-referenced-tables-2", "APPLICATION app1();\nWORKSPACE W (\n  TYPE T2 (y ref(C));\n  TYPE T (x ref(B));\n  TABLE B INHERITS sys.CDoc (T2);\n  TABLE C INHERITS sys.CDoc (T2);\n);\n"},
 	{"empty-file", ""},
 	{"only-comment", "-- nothing here\n"},
 }
@@ -63,6 +93,14 @@ var shapeCatalogue = [][2]string{
 func shapeText(r *kit.Rng, donors []string) ([]c17.PkgText, string) {
 	if r.Chance(1, 12) {
 		return grantsInPackages(2 + r.Intn(3)), "shape:grants-in-several-packages"
+	}
+	if r.Chance(1, 12) {
+		n := multiShapeNames[r.Intn(len(multiShapeNames))]
+		return withSys(multiShapes[n]), "shape:" + n
+	}
+	if r.Chance(1, 30) {
+		n := kit.Pick(r, []string{"odoc-inherits-itself", "crecord-cdoc-cycle", "wsingleton-wdoc-wrecord-cycle"})
+		return sysCycle(n), "shape:sys-cycle-" + n
 	}
 	s := shapeCatalogue[r.Intn(len(shapeCatalogue))]
 	texts := withSys([]c17.PkgText{{Path: "github.com/verif/app1", Files: []string{s[1]}}})
@@ -73,6 +111,57 @@ func shapeText(r *kit.Rng, donors []string) ([]c17.PkgText, string) {
 		kind += "+" + kinds
 	}
 	return texts, kind
+}
+
+// crafted programs of several packages
+var multiShapes = map[string][]c17.PkgText{
+	// the package is imported under an alias and named by the base name of its path (C16-F16)
+	"import-alias-param-by-base-name": {
+		{Path: "github.com/verif/app1", Files: []string{"IMPORT SCHEMA 'github.com/verif/pkg1' AS p1;\nAPPLICATION app1( USE p1; );\nWORKSPACE W INHERITS p1.AW (\n  EXTENSION ENGINE BUILTIN ( COMMAND c(pkg1.T) RETURNS pkg1.T; QUERY q(pkg1.T) RETURNS pkg1.T; );\n);\n"}},
+		{Path: "github.com/verif/pkg1", Files: []string{"ABSTRACT WORKSPACE AW ( TYPE T (a int32); );\n"}}},
+	"ok-import-alias-param-by-alias": {
+		{Path: "github.com/verif/app1", Files: []string{"IMPORT SCHEMA 'github.com/verif/pkg1' AS p1;\nAPPLICATION app1( USE p1; );\nWORKSPACE W INHERITS p1.AW (\n  EXTENSION ENGINE BUILTIN ( COMMAND c(p1.T) RETURNS p1.T; );\n);\n"}},
+		{Path: "github.com/verif/pkg1", Files: []string{"ABSTRACT WORKSPACE AW ( TYPE T (a int32); );\n"}}},
+	// three packages alter one workspace; one TYPE is included by two tables that refer to each other through
+	// it - which package is built first decided between success and a false "circular reference" (C16-F5b)
+	"ok-field-set-shared-across-packages": {
+		{Path: "github.com/verif/app1", Files: []string{"IMPORT SCHEMA 'github.com/verif/pkg1';\nIMPORT SCHEMA 'github.com/verif/pkg2';\nAPPLICATION app1( USE pkg1; USE pkg2; );\nALTERABLE WORKSPACE W ();\n"}},
+		{Path: "github.com/verif/pkg1", Files: []string{"IMPORT SCHEMA 'github.com/verif/app1';\nIMPORT SCHEMA 'github.com/verif/pkg2';\nALTER WORKSPACE app1.W ( TYPE T (x ref(pkg2.B)); );\n"}},
+		{Path: "github.com/verif/pkg2", Files: []string{"IMPORT SCHEMA 'github.com/verif/app1';\nALTER WORKSPACE app1.W ( TYPE T2 (y ref(C)); TABLE B INHERITS sys.CDoc (T2); TABLE C INHERITS sys.CDoc (T2); );\n"}}},
+}
+var multiShapeNames = func() []string {
+	var l []string
+	for k := range multiShapes {
+		l = append(l, k)
+	}
+	sort.Strings(l)
+	return l
+}()
+
+// the sys package with a system table put on an INHERITS cycle (C16-F11); nil: unknown name. The
+// application declares no table: an heir of the cyclic table would have the cycle reported by ITS chain
+func sysCycle(name string) []c17.PkgText {
+	sys := c17.SysVSQL()
+	edit := func(old, new string) {
+		if !strings.Contains(sys, old) {
+			sys = ""
+		}
+		sys = strings.Replace(sys, old, new, 1)
+	}
+	switch name {
+	case "odoc-inherits-itself":
+		edit("ABSTRACT TABLE ODoc INHERITS ORecord();", "ABSTRACT TABLE ODoc INHERITS ODoc();")
+	case "crecord-cdoc-cycle":
+		edit("ABSTRACT TABLE CRecord();", "ABSTRACT TABLE CRecord INHERITS CDoc();")
+	case "wsingleton-wdoc-wrecord-cycle":
+		edit("ABSTRACT TABLE WRecord();", "ABSTRACT TABLE WRecord INHERITS WSingleton();")
+	default:
+		return nil
+	}
+	if sys == "" {
+		return nil
+	}
+	return []c17.PkgText{{Path: "sys", Files: []string{sys}}, {Path: "github.com/verif/app1", Files: []string{"APPLICATION app1();\nWORKSPACE W (\n  ROLE r;\n);\n"}}}
 }
 
 // an application of 1+n packages, each with a workspace, a table, a role and a grant (C16-F8)
